@@ -138,10 +138,32 @@ def wellformed_filter(rng, events, shape=None, allow_limit=False):
     """a NIP-01 filter aimed at the given events; shape selects the planner outcome"""
     shapes = ["ids", "ids+kinds", "kinds", "authors", "authors+kinds", "tags", "time",
               "kinds+time", "authors+time", "tags+kinds", "tags+authors", "ids+time", "tags+time",
-              "authors+kinds+tags", "tags2"]
+              "authors+kinds+tags", "tags2", "tags2x"]
     shape = shape or rng.choice(shapes)
     f = {}
     pick = (lambda: rng.choice(events)) if events else None
+    if shape == "tags2x":
+        # two tag conditions, one of them listing several values that a single event carries, the other
+        # one usually NOT satisfied by that event
+        multi = []
+        for e in events:
+            by = {}
+            for t in e["tags"]:
+                if len(t) >= 2 and len(t[0]) == 1 and isinstance(t[1], str):
+                    by.setdefault(t[0], set()).add(t[1])
+            multi += [(e, n, sorted(v)) for n, v in by.items() if len(v) >= 2]
+        if multi:
+            e, n, vals = rng.choice(multi)
+            f["#" + n] = vals[:3]
+            others = [(t[0], t[1]) for e2 in events for t in e2["tags"]
+                      if len(t) >= 2 and len(t[0]) == 1 and t[0] != n and isinstance(t[1], str)]
+            if others and rng.random() < 0.7:
+                n2, v2 = rng.choice(others)
+                f["#" + n2] = [v2]
+            else:
+                f["#" + rng.choice([x for x in "tpegr" if x != n])] = [rng.choice(TAG_VALS[:6]) or "q"]
+            return f
+        shape = "tags2"
     parts = shape.split("+")
     for p in parts:
         if p == "ids":
